@@ -33,6 +33,11 @@ def registry():
         model_py.register6(_REG, PROPERTIES)
         model_py.register7(_REG, PROPERTIES)
         model_py.register8(_REG, PROPERTIES)
+        from . import serialize_py
+        serialize_py.register(_REG, PROPERTIES)
+        from . import registry_py
+        registry_py.register(_REG, PROPERTIES)
         from . import properties
         properties.register(_REG, PROPERTIES)
+        properties.register2(_REG, PROPERTIES)
     return _REG
